@@ -22,7 +22,7 @@ except Exception:  # pragma: no cover
 
 META = {
     "technique": "Lean 4 history model of the process-global registers (class attributes of SCF written by every forward, read by backward) with a non-interference theorem for nested histories, the interleaving leak as a witness and non-interference for all histories of the repaired semantics + fresh-process vs prefixed-history search on the real code (job pool with heterogeneous molecules/methods/solvers/spins/excited/MD/failing calls, object and dictionary reuse, thread counts)",
-    "level_text": "Theorems: in the model of the package's process state, if every backward pass follows its own forward pass with no other forward in between, the registers it reads are its own for every prefix history (results are history independent); the interleaving [Forward a, Forward b, Backward a] reads b's registers (witness); under the semantics where backward reads values saved in its own context, non-interference holds for ALL histories. Tied to the code by the `history` correspondence (which tolerance/method a real backward pass used, observed by wrapping) and by comparing job J run first in a fresh process with J after seeded prefixes of other jobs, with reused drivers/dictionaries, repeated identical calls (bitwise) and 1..16 threads.",
+    "level_text": "Theorems: in the model of the package's process state, if every backward pass follows its own forward pass with no other forward in between, the registers it reads are its own for every prefix history (results are history independent); the interleaving [Forward a, Forward b, Backward a] reads b's registers (witness); under the semantics where backward reads values saved in its own context, non-interference holds for ALL histories. Tied to the code by the `history` correspondence (which tolerance/method a real backward pass used, observed by wrapping) and by comparing job J run first in a fresh process with J after seeded prefixes of other jobs, with reused drivers/dictionaries, repeated identical calls (bitwise) and 1..16 threads. Census obligation (regenerated from the AST on every run): every module-level container with the expression its entries are keyed by, every run-time write to a class attribute, mutable default, global statement and memoising decorator of the package is in the audited list (Census.process_state_is_audited).",
     "level_note": "Trusted: Lean kernel; harness (fork). Partial: thread-count independence and bitwise repeatability are runtime behaviour the model cannot exhibit; they are observed by the probes (threads within 1e-9, repeats bitwise).",
     "design_ref": "DESIGN.md section 5 C15",
 }
